@@ -431,6 +431,40 @@ namespace
                 return;
             }
 #endif
+#if SQ_FAMILY == 0 && !defined(SQ_THROWING)
+            if ((st.c >> 20) % 4 == 1)
+            {
+                // an element proxy of ANOTHER optional container - other value type, other length, other position, hence another
+                // bit of another flag block - assigned to this one: value and flag of that element arrive, nothing else moves
+                using U = typename std::conditional<std::is_same<T, double>::value, float, long>::type;
+#ifdef SQ_FLAG_BLOCK
+                using Src = xtl::xoptional_vector<U, std::allocator<U>, xtl::xdynamic_bitset<SQ_FLAG_BLOCK>>;
+#else
+                using Src = xtl::xoptional_vector<U>;
+#endif
+                size_t sn = 1 + static_cast<size_t>((st.c >> 8) % 150);
+                Src src(sn, U(0));
+                uint64_t bits = st.b * 0x9e3779b97f4a7c15ULL + st.c;
+                for (size_t k = 0; k < sn; ++k) { src[k] = static_cast<U>(k + 3); if (((bits >> (k % 59)) ^ (k / 59)) & 1) src.has_value()[k] = false; }
+                size_t j = static_cast<size_t>((st.c >> 30) % sn);
+                bool jf = static_cast<bool>(src.has_value()[j]);
+                switch ((st.c >> 6) & 3)
+                {
+                case 0: c[i] = src[j]; break;
+                case 1: c[i] = static_cast<const Src&>(src)[j]; break;
+                case 2: *(c.begin() + di) = *(src.begin() + static_cast<std::ptrdiff_t>(j)); break;
+                default: c.at(i) = src.at(j); break;
+                }
+                m[i] = Elem(static_cast<T>(static_cast<U>(j + 3)), jf);
+                for (size_t k = 0; k < sn; ++k)
+                    if (src[k].value() != static_cast<U>(k + 3) || static_cast<bool>(src.has_value()[k]) != !(((bits >> (k % 59)) ^ (k / 59)) & 1))
+                        viol("invariant", "source", "assigning from an element of another container changed that container (element " + std::to_string(k) + ")");
+                SIM_PROBE("proxy_of_another_container_assigned");
+                ++run.changing;
+                check_all();
+                return;
+            }
+#endif
             switch (path)
             {
             case 0: write_ref(c[i], form, a, b, f, m[i]); break;
